@@ -214,7 +214,7 @@ def v3_all_modified_x():
     return [(fb + "/" + f, dict(db, **dict((m, "X") for m in T.V3_MODIFIED))) for fb, db in v3_base_all()]
 
 
-def v3_blocks(tier):
+def v3_blocks(tier, full_inherit=False):
     """Every block is enumerated under CVSS:3.0 with twin CVSS:3.1: each point is evaluated under
     both minor versions back to back (same process, same body)."""
     blocks = []
@@ -227,7 +227,8 @@ def v3_blocks(tier):
         blocks.append(Block("v3.override", fam, v3_modified_over_complementary_base(),
                             v3_temporal_effective(), req, twin=twin))
     else:
-        blocks.append(Block("v3.inherit", fam, ba, v3_temporal_skeleton(12), req, twin=twin))
+        blocks.append(Block("v3.inherit", fam, ba, v3_temporal_effective() if full_inherit else v3_temporal_skeleton(12),
+                            req, twin=twin))
         blocks.append(Block("v3.override", fam, v3_modified_over_complementary_base(),
                             v3_temporal_skeleton(4), req, twin=twin))
     one_req = _pick(req, [{"CR": "H", "IR": "L", "AR": "M"}])
@@ -467,6 +468,31 @@ def interaction_coverage(fam, strength, rows):
     covered = sum(o[1] for o in outs)
     return {"strength": strength, "value_combinations": total, "covered": covered,
             "rows_examined": rows, "rows_until_all_covered": max(o[2] for o in outs) if covered == total else None}
+
+
+def layout_block(fam, twin=None):
+    """Points for the layout sweeps (engine: two_move_layouts): all 27 values of the three impact
+    metrics x a few values of the other mandatory metrics, with one temporal / threat and two
+    requirement metrics written out, so that optional fields can land among the mandatory ones."""
+    tab = T.METRICS[fam]
+    if fam == "2":
+        imp, rest, opt = ["C", "I", "A"], {"AV": ["N", "L"], "AC": ["L"], "Au": ["N", "M"]}, "E:F/CR:L/IR:H"
+    elif fam == "4.0":
+        imp = ["VC", "VI", "VA"]
+        rest = {"AV": ["N", "P"], "AC": ["L"], "AT": ["N"], "PR": ["N", "H"], "UI": ["N"], "SC": ["L"], "SI": ["H"], "SA": ["N"]}
+        opt = "E:P/CR:L/IR:H"
+    else:
+        imp, rest, opt = ["C", "I", "A"], {"AV": ["N", "L"], "AC": ["L"], "PR": ["N", "H"], "UI": ["N"], "S": ["U", "C"]}, "E:P/CR:L/IR:H"
+    mand = T.MANDATORY[fam]
+    doms = dict((m, rest.get(m, tab[m] if m in imp else tab[m][:1])) for m in mand)
+    A = parts(mand, doms)
+    o = dict(f.split(":") for f in opt.split("/"))
+    # the requirement metrics take each other's values in the second variant (values that coincide
+    # when read in field order after two fields have changed places)
+    swapped = dict(o, CR=o["IR"], IR=o["CR"])
+    B = [(opt, o), ("/".join("%s:%s" % (m, swapped[m]) for m in o), swapped)]
+    n = len(mand) + len(o)
+    return Block("v%s.layout_sweep" % fam, fam, A, B, twin=twin, meta={"layouts": n})
 
 
 def interaction_evidence(fams, tier):
